@@ -481,8 +481,13 @@ func genICase(rt *rapid.T, maxReqs int) *ICase {
 	n := rapid.IntRange(2, maxReqs).Draw(rt, "nreq")
 	for i := 0; i < n; i++ {
 		id := fmt.Sprintf("r%d%s", i, strings.Repeat("x", i%7))
-		c.Reqs = append(c.Reqs, Req{ID: id, Method: []string{"GET", "POST", "PUT", "DELETE", "PATCH"}[i%5], URL: fmt.Sprintf("/p/%s?q=%d", id, i), Remote: fmt.Sprintf("10.0.%d.%d:%d", i/250, i%250+1, 1000+i),
-			Host: fmt.Sprintf("h%d.example.com:%d", i, 8000+i), UA: "agent-" + id, Referer: "http://ref/" + id, Custom: "custom-" + id, Proto: []string{"HTTP/1.0", "HTTP/1.1", "HTTP/2.0"}[i%3]})
+		// address forms: host:port, [v6]:port, bare v6, v6 with zone, bare host, bare v4 — all distinct per request
+		remotes := []string{fmt.Sprintf("10.0.%d.%d:%d", i/250, i%250+1, 1000+i), fmt.Sprintf("[2001:db8::%x]:%d", i+1, 2000+i), fmt.Sprintf("2001:db8::%x", i+1),
+			fmt.Sprintf("fe80::%x%%eth0", i+1), fmt.Sprintf("192.168.%d.%d", i/250, i%250+1), fmt.Sprintf("[::%x]", i+1), fmt.Sprintf("peer%d", i)}
+		hosts := []string{fmt.Sprintf("h%d.example.com:%d", i, 8000+i), fmt.Sprintf("h%d.example.com", i), fmt.Sprintf("[2001:db8:1::%x]:%d", i+1, 8000+i), fmt.Sprintf("2001:db8:1::%x", i+1), fmt.Sprintf("こんにちは%d.com:%d", i, 80+i)}
+		c.Reqs = append(c.Reqs, Req{ID: id, Method: []string{"GET", "POST", "PUT", "DELETE", "PATCH"}[i%5], URL: fmt.Sprintf("/p/%s?q=%d", id, i),
+			Remote: remotes[rapid.IntRange(0, len(remotes)-1).Draw(rt, "remoteform")], Host: hosts[rapid.IntRange(0, len(hosts)-1).Draw(rt, "hostform")],
+			UA: "agent-" + id, Referer: "http://ref/" + id, Custom: "custom-" + id, Proto: []string{"HTTP/1.0", "HTTP/1.1", "HTTP/2.0"}[i%3]})
 	}
 	return c
 }
